@@ -53,7 +53,8 @@ pub fn name_s2(t: &mut Tape) -> String {
 
 const ARGS: &[&str] = &[
     "a", "b", "amount", "who", "to", "data", "k", "value", "x1", "owner_addr", "msg", "r#type",
-    "r#match", "deps", "env", "info", "n", "s", "list", "field1", "field2", "payload2", "id",
+    "r#match", "deps", "env", "info", "n", "s", "list", "field1", "field2", "payload2", "id", "tokenId", "newOwner", "X",
+    "_unused", "a_b_c",
 ];
 
 pub fn arg_name(t: &mut Tape, used: &[String]) -> String {
